@@ -164,9 +164,13 @@ def tlc(module, cfg, env, name, timeout=3600, nworkers=None, extra=None, coverag
     meta = os.path.join(WORK, "tlc", name)
     shutil.rmtree(meta, ignore_errors=True)
     os.makedirs(meta, exist_ok=True)
-    e = {"JAVA_TOOL_OPTIONS": "-Dfile.encoding=UTF-8 -Xss1g -Xmx" + mem}
+    e = {}
     e.update(env)
-    cmd = ["tlc", "-workers", str(nworkers or workers()), "-metadir", meta, "-cleanup", "-noGenerateSpecTE"]
+    # java is called directly (not through the `tlc` wrapper): -Xss must be on the command line, because the launcher sizes
+    # the MAIN thread's stack from it and TLC computes initial states (and their invariants) on the main thread
+    cmd = ["java", "-Xss1g", "-Xmx" + mem, "-Dfile.encoding=UTF-8", "-XX:+UseParallelGC",
+           "-cp", "/opt/veriftools/tla/tla2tools.jar:/opt/veriftools/tla/CommunityModules-deps.jar", "tlc2.TLC",
+           "-workers", str(nworkers or workers()), "-metadir", meta, "-cleanup", "-noGenerateSpecTE"]
     if coverage:
         cmd += ["-coverage", "1"]
     if extra:
